@@ -55,9 +55,13 @@ func New(id, tier, level string) *Run {
 		fmt.Fprintln(os.Stderr, "known findings:", err)
 		os.Exit(2)
 	}
+	maxv := 5
+	if n, err := strconv.Atoi(os.Getenv("VERIF_MAXVIOL")); err == nil && n > 0 {
+		maxv = n
+	}
 	return &Run{ID: id, Tier: tier, Seed: seed, Level: level, start: time.Now(),
 		cov: map[string]interface{}{}, known: map[string]int{}, knownWhat: map[string]string{},
-		seenViol: map[string]bool{}, findings: f, maxViol: 5}
+		seenViol: map[string]bool{}, findings: f, maxViol: maxv}
 }
 
 // Set sets a coverage key.
